@@ -588,6 +588,8 @@ class IfaceExecutor(X.UnitsExecutor):
                 v = st.obj(v.ref).data
             if isinstance(v, VSeq) and self.concrete_items(st, v) is None:
                 sample = v.elem(K)
+                if isinstance(sample, VSeq):
+                    return self._max_of_rows(st, v, kwargs, node)
                 if not isinstance(sample, VInt):
                     raise Unsupported(f"{self.loc(node)} max over a symbolic sequence of non-integers")
                 lam = z3.Lambda([K], ops.int_term(sample))
@@ -601,6 +603,31 @@ class IfaceExecutor(X.UnitsExecutor):
                     return []
                 return [(s2, VInt(SEQMAX(lam, v.length, z3.IntVal(0))))]
         return super()._minmax(st, args, kwargs, node, is_min)
+
+    def _max_of_rows(self, st, v, kwargs, node):
+        """max(<symbolic sequence of rows>[, key=len][, default=d]): the result is ONE OF the rows (row k for a fresh k).
+        key=len: exactly a longest row (len == seq_max of the lengths).  Without a key Python compares rows lexicographically:
+        WHICH row wins is not modelled -> the path is over-approximated (marker OVER: a `sat` there is confirmed natively first)."""
+        key = kwargs.get("key")
+        if set(kwargs) - {"key", "default"} or (key is not None and not (isinstance(key, VFunc) and key.how == "builtin" and key.a == "len")):
+            raise Unsupported(f"{self.loc(node)} max over rows with key={key!r}")
+        out = []
+        s0 = st.fork().assume(v.length <= 0)
+        if "default" in kwargs:
+            out.append((s0, kwargs["default"]))
+        else:
+            self.raise_in(s0, self.mk_exc("ValueError"))
+        s1 = st.fork().assume(v.length > 0)
+        k = z3.Int(fresh_name("argmax"))
+        s1.assume(z3.And(k >= 0, k < v.length))
+        row = v.elem(k)
+        if key is not None:
+            lam = z3.Lambda([K], v.elem(K).length)
+            s1.assume(row.length == SEQMAX(lam, v.length, z3.IntVal(0)))
+        else:
+            s1.assume(OVER)
+        out.append((s1, row))
+        return out
 
     # ---------------------------------------------------------------- floats --
     # float values that come from text are abstract (`Float`): +-inf and nan are possible, so round()/int() may raise
